@@ -253,12 +253,17 @@ def enc_stmt(st):
             f"{enc_kv(st['defaults'])}|{st['tag']}")
 
 
-def tree_tokens(root: str, listing: dict, case) -> list[str]:
+def tree_tokens(root: str, listing: dict, case, order: int = 0) -> list[str]:
+    """order 0: the directory order the build process saw (os.listdir); 1 / 2: sorted / reverse sorted (the order
+    in which a directory is iterated is not part of the property; tried when order 0 does not reproduce the run)."""
     known_dirs = {os.path.join(root, d) for d in case["dirs"]} | {root}
 
     def rec(d):
         toks = ["D:" + os.path.basename(d)]
-        for e in listing.get(d) or []:
+        entries = listing.get(d) or []
+        if order:
+            entries = sorted(entries, reverse=(order == 2))
+        for e in entries:
             full = os.path.join(d, e)
             if full in known_dirs:
                 toks += rec(full)
@@ -271,11 +276,11 @@ def tree_tokens(root: str, listing: dict, case) -> list[str]:
     return rec(root)
 
 
-def model_lines(case, ob, perm=0):
+def model_lines(case, ob, perm=0, order=0):
     root = ob["root"]
     rootp = root.lstrip("/")
     pre = os.path.dirname(root).lstrip("/")
-    lines = ["collect.reset", f"collect.fs pre={pre} tree={','.join(tree_tokens(root, ob['listing'], case))}"]
+    lines = ["collect.reset", f"collect.fs pre={pre} tree={','.join(tree_tokens(root, ob['listing'], case, order))}"]
     for rel, prog in case["files"].items():
         if prog is None:
             continue
@@ -635,7 +640,8 @@ class Gen:
         if k == "rewrap":
             fn = r.choice(["task_h", "h"])
             d = self.mkdef(fn, fn, style="def")
-            return [d, self.wrap(d["obj"], None, "a", bare=True), self.wrap(d["obj"], None, r.choice(["a", "b"]), bare=True)]
+            i1 = r.choice([None, "a"])
+            return [d, self.wrap(d["obj"], None, i1, bare=True), self.wrap(d["obj"], None, r.choice([None, "a", "b"]), bare=True)]
         if k == "lambda":
             out = []
             for _ in range(r.choice([1, 1, 2])):
@@ -865,8 +871,8 @@ def compare_model(ctx, case, ob):
     got = {"exit": ob["exit"], "tasks": sorted((t["name"], tagnum(t["tag"])) for t in ob["tasks"]),
            "exec": sorted(tagnum(t) for t in ob["executed"])}
     last = None
-    for perm in range(0, 6):
-        answers = d.batch(model_lines(case, ob, perm))
+    for perm, order in [(p, 0) for p in range(6)] + [(p, o) for o in (1, 2) for p in range(3)]:
+        answers = d.batch(model_lines(case, ob, perm, order))
         m = parse_run(answers[-1])
         if m is None or any(a == "bad-op" for a in answers[:-1]):
             ctx.disagreement(f"model-rejected-input: {answers[-1][:120]}", {"case": case})
